@@ -577,6 +577,18 @@ fn bulk() -> i32 {
                 for (i, k) in keys.iter().enumerate() { if r[i] != m2.get(*k).unwrap() { return Err(format!("bulk_get({keys:?})[{i}] differs from get({k})")); } }
                 let rs = m.bulk_get_string(&keys).unwrap();
                 for (i, k) in keys.iter().enumerate() { if rs[i] != m2.get_string(*k).unwrap() { return Err(format!("bulk_get_string({keys:?})[{i}] differs from get_string({k})")); } }
+                if n == 3 {
+                    // values stored through the byte API that are empty, contain NUL, or are not valid UTF-8
+                    let odd: [(&str, &[u8]); 4] = [("o-empty", b""), ("o-nul", b"a\0b"), ("o-latin1", b"caf\xe9"), ("o-ff", b"\xff\xfe")];
+                    for (k, v) in odd { m.put(k, v).unwrap(); m2.put(k, v).unwrap(); }
+                    let ok: Vec<&str> = vec!["o-ff", "absent", "o-empty", "o-latin1", "o-nul"];
+                    let rs = m.bulk_get_string(&ok).unwrap();
+                    for (i, k) in ok.iter().enumerate() { if rs[i] != m2.get_string(*k).unwrap() { return Err(format!("bulk_get_string({ok:?})[{i}] = {:?} differs from get_string({k}) = {:?}", rs[i], m2.get_string(*k).unwrap())); } }
+                    let rb = m.bulk_get(&ok).unwrap();
+                    for (i, k) in ok.iter().enumerate() { if rb[i] != m2.get(*k).unwrap() { return Err(format!("bulk_get({ok:?})[{i}] differs from get({k})")); } }
+                    let rd = m.bulk_delete_string(&ok).unwrap();
+                    for (i, k) in ok.iter().enumerate() { let e = m2.delete_string(*k).unwrap(); if rd[i] != e { return Err(format!("bulk_delete_string({ok:?})[{i}] = {:?} differs from delete_string({k}) = {:?}", rd[i], e)); } }
+                }
                 // bulk_put of new values in this order, then compare maps
                 let vals: Vec<String> = keys.iter().enumerate().map(|(i, k)| format!("new-{k}-{i}")).collect();
                 let pairs: Vec<(&str, &[u8])> = keys.iter().zip(vals.iter()).map(|(k, v)| (*k, v.as_bytes())).collect();
@@ -617,7 +629,25 @@ fn dbsync() -> i32 {
                 }
                 if round > 0 { ms[j].delete("k1").unwrap(); mb[j].delete(&b"k1"[..]).unwrap(); mi[j].delete(&-2i64).unwrap(); mu[j].delete(&(1u64 << 50)).unwrap(); mv[j].delete(&(1u64 << 50)).unwrap(); }
             }
-            if round % 2 == 0 { db.sync_all().unwrap(); } else { db.sync_data().unwrap(); }
+            // handles requested again for the same names (both lookup variants) must be the same maps: syncing through them, or through
+            // the database, makes the updates made through the first handles durable
+            if round >= 1 {
+                for j in 0..2usize {
+                    let n = ["1", "2"][j];
+                    let mut hs = db.db_map_string_with_params(&format!("s{n}"), params.clone()).unwrap();
+                    let mut hb = db.db_map_bytes(&format!("b{n}")).unwrap();
+                    let mut hi = db.db_map_i64_with_params(&format!("i{n}"), params.clone()).unwrap();
+                    let mut hu = db.db_map_u64(&format!("u{n}")).unwrap();
+                    let mut hv = db.db_map_vu64_with_params(&format!("v{n}"), params.clone()).unwrap();
+                    let tag = vec![0xA0 + round as u8; 17];
+                    ms[j].put(&format!("late{round}"), &tag).unwrap(); mb[j].put(&format!("late{round}").as_bytes().to_vec()[..], &tag).unwrap();
+                    mi[j].put(&(1000 + round as i64), &tag).unwrap(); mu[j].put(&(1000 + round), &tag).unwrap(); mv[j].put(&(1000 + round), &tag).unwrap();
+                    if hs.len().unwrap() != ms[j].len().unwrap() || hb.len().unwrap() != mb[j].len().unwrap() || hi.len().unwrap() != mi[j].len().unwrap()
+                        || hu.len().unwrap() != mu[j].len().unwrap() || hv.len().unwrap() != mv[j].len().unwrap() { return Err(format!("round {round}: a handle requested again for the same name does not see the first handle's updates")); }
+                    if round == 1 { hs.flush().unwrap(); hb.flush().unwrap(); hi.sync_data().unwrap(); hu.sync_all().unwrap(); hv.flush().unwrap(); }
+                }
+            }
+            if round == 1 { /* synced through the second handles above */ } else if round % 2 == 0 { db.sync_all().unwrap(); } else { db.sync_data().unwrap(); }
             copy_dir(&dir, &snap);
             let db2 = abyssiniandb::open_file(&snap).unwrap();
             for j in 0..2usize {
